@@ -39,9 +39,10 @@ def scenario(steps, tags=()):
     return {"kind": "scenario", "tags": list(tags), "steps": [s if isinstance(s, dict) else step(s) for s in steps]}
 
 
-def outline(blocks, tags=()):
-    """blocks: list of (block tags, rows) ; row = list of steps/outcomes; all rows of an outline same length"""
-    return {"kind": "outline", "tags": list(tags),
+def outline(blocks, tags=(), ptag=False):
+    """blocks: list of (block tags, rows) ; row = list of steps/outcomes; all rows of an outline same length.
+    ptag: the outline additionally carries the parametrized tag @x<c1> (rendered per row from the first cell)"""
+    return {"kind": "outline", "tags": list(tags), "ptag": bool(ptag),
             "blocks": [{"tags": list(bt), "rows": [[s if isinstance(s, dict) else step(s) for s in row] for row in rows]}
                        for bt, rows in blocks]}
 
@@ -116,7 +117,12 @@ def flatten(prog):
                     oe["fidx"] = fi
                     for b in it["blocks"]:
                         for row in b["rows"]:
-                            se = new("scenario", oe["id"], list(it["tags"]) + list(b["tags"]))
+                            ptag = []
+                            if it.get("ptag"):
+                                o1 = row[0]["o"]
+                                cell = "nodef own 1" if o1 == "undefined" else ("bad own 1" if o1 == "badarg" else "own 1")
+                                ptag = ["x" + cell.replace(" ", "_")]          # Tag.make_name of the rendered tag
+                            se = new("scenario", oe["id"], list(it["tags"]) + ptag + list(b["tags"]))
                             se["fidx"] = fi
                             se["steps"] = mk_steps(inherited_fbg, rbg, row)
         items(f["items"], fe, None, fbg)
@@ -193,12 +199,13 @@ def family_tree(rnd, n, quick=False):
             blocks = []
             for _ in range(rnd.randint(1, 2)):
                 blocks.append((rtags(0.3), [[rnd.choice(outcomes) for _ in range(nst)] for _ in range(rnd.randint(1, 2))]))
-            return outline(blocks, rtags(0.3))
+            return outline(blocks, rtags(0.3), ptag=rnd.random() < 0.3)
         return scenario([rnd.choice(outcomes) for _ in range(rnd.randint(1, 2))], rtags())
 
     def routline():
         nst = rnd.randint(1, 2)
-        return outline([(rtags(0.3), [[rnd.choice(outcomes) for _ in range(nst)] for _ in range(rnd.randint(1, 2))])], rtags(0.3))
+        return outline([(rtags(0.3), [[rnd.choice(outcomes) for _ in range(nst)] for _ in range(rnd.randint(1, 2))])], rtags(0.3),
+                       ptag=rnd.random() < 0.3)
 
     for _ in range(n):
         feats = []
